@@ -1251,9 +1251,14 @@ func main() {
 		&ty.Decl{Name: "UH", Pkg: "", Under: ty.St(ty.F("A", b("int")), ty.F("B", b("string"))), Methods: "Ev.Hv"},
 		&ty.Decl{Name: "WH", Pkg: "", Under: ty.St(ty.F("V", n(shadow0+5)), ty.F("N", b("int")))},
 		&ty.Decl{Name: "CS", Pkg: "", Under: b("string")},
-		&ty.Decl{Name: "CSH", Pkg: "", Under: b("string")})
+		&ty.Decl{Name: "CSH", Pkg: "", Under: b("string")},
+		// a ==-comparable struct whose Equal takes an interface{} (the gogo/protobuf shape that plugin/equal calls) and
+		// looks at the first field only (hand-written, value receiver: consistency ops only), and a struct holding one
+		&ty.Decl{Name: "UI", Pkg: "", Under: ty.St(ty.F("A", b("int")), ty.F("B", b("string")))},
+		&ty.Decl{Name: "WI", Pkg: "", Under: ty.St(ty.F("V", n(shadow0+9)), ty.F("N", b("int")))})
 	word, key, bb, rt, rc := n(shadow0), n(shadow0+1), n(shadow0+2), n(shadow0+3), n(shadow0+4)
 	uh, wh, cs, csh := n(shadow0+5), n(shadow0+6), n(shadow0+7), n(shadow0+8)
+	ui, wi := n(shadow0+9), n(shadow0+10)
 	nu64 := n(46)
 	localSrc := map[string]string{"RC": `
 func (this *RC) Compare(that *RC) int {
@@ -1289,6 +1294,17 @@ func fold(s string) string {
 		}
 	}
 	return string(b)
+}
+
+`, "UI": `
+func (this UI) Equal(other interface{}) bool {
+	switch that := other.(type) {
+	case UI:
+		return this.A == that.A
+	case *UI:
+		return that != nil && this.A == that.A
+	}
+	return false
 }
 
 `, "CSH": `
@@ -1380,13 +1396,26 @@ func (this CSH) Hash() int32         { return int32(len(this)) }
 	opsf, err := os.Create(filepath.Join(*out, "ops.txt"))
 	must(err)
 	g := &G{env: env, vg: gen.NewVGen(env, rng, cap), rng: rng, ow: &opw{f: opsf, n: map[string]int{}}, m: &m,
-		prelude: &prelude, stats: map[string]int{}, want: want, maxLen: maxLen, nRandom: nRandom, force: -1, qshadow: map[int]bool{}, tnPre: "L", customE: map[string]bool{"CS": true, "CSH": true}}
+		prelude: &prelude, stats: map[string]int{}, want: want, maxLen: maxLen, nRandom: nRandom, force: -1, qshadow: map[int]bool{}, tnPre: "L", customE: map[string]bool{"CS": true, "CSH": true, "UI": true}}
 
 	dn, err := os.OpenFile(os.DevNull, os.O_WRONLY, 0)
 	must(err)
 	g.discard = &opw{f: dn, n: map[string]int{}}
 	folded := []*ty.Val{sv("a"), sv("A"), sv("ab"), sv("aB"), sv("b"), sv(""), sv("AB"), sv("B")}
-	g.pools = map[string][]*ty.Val{"CS": folded, "CSH": folded,
+	uiv := func(a int64, b string) *ty.Val {
+		return &ty.Val{K: ty.VStruct, Elems: []*ty.Val{{K: ty.VInt, Int: fmt.Sprint(a)}, sv(b)}}
+	}
+	uis := []*ty.Val{uiv(0, ""), uiv(0, "a"), uiv(1, ""), uiv(1, "b"), uiv(-1, "x"), uiv(0, "ab")}
+	var wis, ais, acs []*ty.Val
+	for k, u := range uis {
+		wis = append(wis, &ty.Val{K: ty.VStruct, Elems: []*ty.Val{u, {K: ty.VInt, Int: fmt.Sprint(k / 4)}}})
+		ais = append(ais, &ty.Val{K: ty.VArr, Elems: []*ty.Val{u, uis[(k+2)%len(uis)]}})
+	}
+	for k := range folded {
+		acs = append(acs, &ty.Val{K: ty.VArr, Elems: []*ty.Val{folded[k], folded[(k+2)%len(folded)]}})
+	}
+	g.pools = map[string][]*ty.Val{"CS": folded, "CSH": folded, "UI": uis, "WI": wis,
+		ty.Ar(2, ui).Wire(): ais, ty.Ar(2, csh).Wire(): acs,
 		// slices of CSH: not ==-comparable, so Unique buckets by the derived hash, which must ask every element's own Hash
 		ty.Sl(csh).Wire(): {slice([]*ty.Val{folded[0]}, 0), slice([]*ty.Val{folded[1]}, 0), nilv(), slice(nil, 0),
 			slice([]*ty.Val{folded[2], folded[4]}, 0), slice([]*ty.Val{folded[3], folded[7]}, 1), slice([]*ty.Val{folded[4]}, 0)}}
@@ -1461,8 +1490,12 @@ func (this CSH) Hash() int32         { return int32(len(this)) }
 			g.elemOps(idx, csh)
 			idx++
 			g.tnPre = "L"
-			g.elemOps(idx, ty.Sl(csh))
-			idx++
+			// the hash of ELEMENTS of slices and arrays must ask the element's own Hash; Equal methods that take an
+			// interface{} count as the type's equality wherever == would otherwise be used
+			for _, t := range []*ty.Ty{ty.Sl(csh), ty.Ar(2, csh), ui, wi, ty.Ar(2, ui)} {
+				g.elemOps(idx, t)
+				idx++
+			}
 			g.eqOnly = false
 		}
 		g.tnPre = "L"
